@@ -2,13 +2,13 @@ SPECIFICATION Spec
 CONSTANTS
   Replicas = {1, 2, 3, 4}
   Pool <- MCPool
-  PoolSize = 8
+  PoolSize = 9
   Limit = 3
   MaxDepth = 14
   MaxLevel = 0
   InitBases <- MCInitBases
   Crafts <- CraftsThorough
   Perms = {"owner", "writer", "anyone"}
-  Thirds = {"same", "perm", "addr"}
+  Thirds = {"same", "perm", "addr", "owner"}
 INVARIANTS Emit
 CHECK_DEADLOCK FALSE
